@@ -152,6 +152,8 @@ def cases(seed, tier="quick"):
         ("build-not-a-string", {"zinoma.yml": "targets:\n  a:\n    build: [1, 2]\n"}, "a build script that is not a string"),
         ("dependencies-not-a-list", {"zinoma.yml": "targets:\n  a:\n    dependencies: dep\n    build: echo hi >> \"$ZLOG\"\n  dep:\n    build: echo hi >> \"$ZLOG\"\n"}, "dependencies that are not a list"),
         ("root-name-duplicated-transitively", {"zinoma.yml": "name: app\nimports:\n  tools: tools\ntargets:\n  a:\n    build: echo hi >> \"$ZLOG\"\n", "tools/zinoma.yml": "name: tools\nimports:\n  app: ../vendor/app\ntargets:\n  gen:\n    build: echo tools >> \"$ZLOG\"\n", "vendor/app/zinoma.yml": "name: app\ntargets:\n  a:\n    build: echo vendored >> \"$ZLOG\"\n"}, "a transitively imported project carrying the root project's name (duplicate)"),
+        ("same-import-key-two-projects", {"zinoma.yml": "name: root\nimports:\n  a: a\n  b: b\ntargets:\n  a:\n    build: echo hi >> \"$ZLOG\"\n", "a/zinoma.yml": "name: a\ntargets:\n  hello:\n    build: echo a >> \"$ZLOG\"\n", "b/zinoma.yml": "name: b\nimports:\n  a: ../other_a\ntargets:\n  t:\n    build: echo b >> \"$ZLOG\"\n", "other_a/zinoma.yml": "name: a\ntargets:\n  hello:\n    build: echo other >> \"$ZLOG\"\n"}, "two different projects imported under the same key `a` by different importers (duplicate name)"),
+        ("import-of-missing-dir-second-importer", {"zinoma.yml": "name: root\nimports:\n  a: a\n  b: b\ntargets:\n  a:\n    build: echo hi >> \"$ZLOG\"\n", "a/zinoma.yml": "name: a\ntargets:\n  hello:\n    build: echo a >> \"$ZLOG\"\n", "b/zinoma.yml": "name: b\nimports:\n  a: ../nowhere\ntargets:\n  t:\n    build: echo b >> \"$ZLOG\"\n"}, "an import of a missing directory under a key another importer uses validly"),
         ("not-yaml", {"zinoma.yml": "targets: [\n"}, "a file that is not YAML"),
         ("targets-not-map", {"zinoma.yml": "targets: 3\n"}, "targets of the wrong type"),
         ("empty-file", {"zinoma.yml": ""}, "an empty file"),
@@ -198,5 +200,8 @@ def cases(seed, tier="quick"):
     out.append(C("c19-same-spelling-two-projects-unnamed-root", accepted_runs(["C19", "C09"], same2, ["lib::test", "test"], ["root-build", "root-test", "lib-build", "lib-test"], "the same with an unnamed root, the imported project requested first"), "same bare spelling, unnamed root"))
     nest = {"zinoma.yml": yml({"check": {"dependencies": ["api::check"]}, "test": B("root-test"), "lint": B("root-lint")}, name="root", imports={"api": "api"}), "api/zinoma.yml": yml({"check": {"dependencies": ["test", "lint"]}, "test": B("api-test"), "lint": B("api-lint")}, name="api")}
     out.append(C("c20-nested-aggregate-across-projects", accepted_runs(["C20", "C19", "C09"], nest, ["check"], ["api-test", "api-lint"], "root aggregate of an imported aggregate whose dependencies are spelled bare: they are api's targets"), "aggregate of an aggregate across projects"))
+    clash = {"zinoma.yml": yml({"gen": B("gen"), "api": B("root-api", dependencies=["gen", "api::build"])}, name="app", imports={"api": "api"}), "api/zinoma.yml": yml({"build": B("api-build"), "deploy": B("api-deploy")}, name="api")}
+    out.append(C("c19-target-named-like-project", accepted_runs("C19", clash, ["api"], ["root-api", "gen", "api-build"], "the bare name `api` means the root target api (a loaded project happens to be called api too)"), "a root target named like an imported project"))
+    out.append(C("c19-target-named-like-project-both", accepted_runs("C19", clash, ["api", "app::api"], ["root-api", "gen", "api-build"], "`api` and `app::api` are the same target"), "both spellings of it"))
     out.append(C("c19-from-own-dir", accepted_runs("C19", two, ["t"], ["lib-t", "lib-helper"], "from lib's own directory the bare name is lib's target", cwd="lib"), "imported project as root"))
     return out
